@@ -9,7 +9,7 @@ use std::{
 
 use crate::{
   prelude::*,
-  rc::{MutArc, MutRc},
+  rc::{MutArc, MutRc, RcDeref},
 };
 
 #[derive(Clone)]
@@ -141,9 +141,11 @@ macro_rules! impl_observer {
       #[inline]
       fn complete(self) {}
 
+      // the notifier is needed only until the gate is open or the main
+      // stream has ended; after that its producer may retire.
       #[inline]
       fn is_finished(&self) -> bool {
-        false
+        !self.0.is_skipping() || self.0.observer.rc_deref().is_none()
       }
     }
   };
